@@ -59,6 +59,7 @@ ROWS = [
     (46, r"^C02-R5\|convert_code_string\|newline-removal-inside-literals$", "host 3.10/3.11, default unparser: a triple-quoted f-string whose replacement field holds a triple-quoted constant with a real newline -> the converted program has 'ab' instead of 'a<newline>b' (see hunted/H6/bug6.py)", "known"),
     (47, r"^C13-R10\|", "s = {1, 2}; s &= {1: 0}.keys(); print(s) -> NotImplemented instead of {1}", "known"),
     (48, r"^C15-R9\|", "host 3.12/3.13, default options: d = {'a': 1}; print(f\"{d['a']}\") -> `print(f'{d['a']}')`, SyntaxError on the runtimes 3.8-3.11 (3.10/3.11 hosts emit working text); hunted/H6/bug5.py. Host 3.11+: b = (0,); a = {(0, 1): 5}; print(a[(*b, 1)]) -> `print(a[*b, 1])`, SyntaxError on 3.8-3.10", "known"),
+    (49, r"^C04-R4\|_Node\|two-quotes\|depth-3-refused$", "unparser=oneliner: def f():\\n v = 1\\n def g():\\n  return f\"{', '.join(f'{n}={v}' for n in 'ab')}\"\\n return g()  -> SyntaxError 'The quotation mark of a f-string is included in a f-string expression' during conversion (three string levels, two quote characters; triple quotes for the outer levels would do); hunted/H10/bug2.py", "known"),
     (37, r"^C12-R8\|", "class A:\\n __x = 1  /  def f(self): __t = 5  /  def __helper(self) -> KeyError during conversion; self.__x = 1 -> attribute `__x` instead of `_A__x`", "known"),
     (33, r"^C02-R2\|\w+\|[\w.]+\|index-tuple-with-slice", "a[1:2, 3] = 0 -> a.__setitem__((1:2, 3), 0), not an expression", "fix 0012"),
 ]
